@@ -44,6 +44,7 @@ fn main() {
         "inflate" => codec::inflate_real(&args[2..]),
         "matches" => codec::matches(&args[2..]),
         "lsm" => codec::lsm(&args[2..]),
+        "b64" => codec::b64(&args[2..]),
         "inflatechunks" => codec::inflate_chunks(&args[2..]),
         "jsoncheck" => {
             // what serde makes of a patch-check response body (debugging aid for the C06 body table)
